@@ -42,7 +42,8 @@ MIN_COUNTERS = {
     'thorough': {'rt_resumptions_checked': 100000, 'nrt_resumptions_checked': 200000,
                  'rt_programs_finished': 2000, 'nrt_programs': 20000},
 }
-FEATURES = ('tempo', 'cond', 'flow', 'call', 'embed', 'resched', 'beats')
+FEATURES = ('tempo', 'cond', 'flow', 'call', 'embed', 'resched', 'beats', 'reenter',
+            'replay')
 
 
 def plan(tier, seed):
@@ -90,8 +91,12 @@ def nontrivial(prog):
 def report_fails(run, acc, mode, prog):
     seen = set()
     for fl in run.fails:
+        if fl['kind'] == 'resumed-without-release':
+            continue        # C11's subject (the times of that routine are re-synchronised)
         if fl['kind'] == 'seconds':
             key = f"C05/logical-seconds-differ/{fl['clock']}/after-{fl['after']}/{mode}"
+        elif fl['kind'] == 'tempo-seconds-model':
+            key = f"C05/tempo-seconds-differ-from-independent-map/after-{fl['after']}/{mode}"
         elif fl['kind'] == 'inner-routine-time':
             key = f"C05/inner-routine-not-at-parent-time/{mode}"
         else:
@@ -245,6 +250,7 @@ def run_rt(spec, acc):
                 else:
                     acc.count('rt_programs_unfinished')
                 acc.count('rt_resumptions_checked', r.n_res)
+                acc.count('rt_resumptions_checked_against_independent_map', r.n_model)
                 for (what, ck), n in r.kinds.items():
                     acc.count(f'rt_res_{what}_{ck}', n)
                 acc.maxi('max_rt_lateness_s', r.max_late)
@@ -346,6 +352,7 @@ def run_nrt(spec, acc):
         acc.case(h64(json.dumps(prog, sort_keys=True)), nontrivial=nt)
         acc.count('nrt_programs')
         acc.count('nrt_resumptions_checked', r.n_res)
+        acc.count('nrt_resumptions_checked_against_independent_map', r.n_model)
         for (what, ck), n in r.kinds.items():
             acc.count(f'nrt_res_{what}_{ck}', n)
         for f in feats:
